@@ -112,7 +112,9 @@ structure CConc where
   st  : St
   thr : Nat → Option Thread
 
-def CConc.init : CConc := { st := St.init, thr := fun _ => none }
+def CConc.initG (g : Nat) : CConc := { st := St.initG g, thr := fun _ => none }
+
+def CConc.init : CConc := CConc.initG 0
 
 def updT (f : Nat → Option Thread) (t : Nat) (v : Option Thread) : Nat → Option Thread :=
   fun u => if u = t then v else f u
